@@ -645,7 +645,7 @@ theorem inFuncRest_inv (S : Sem V) (st : St V) (f t n : Tok) (opfRest : List Tok
         simp only [Option.some.injEq, Prod.mk.injEq] at hn
         obtain ⟨h1, h2⟩ := hn
         subst h1; subst h2
-        simp only [h.2.2.2, if_true, hI.arr1, Bool.false_eq_true, if_false]
+        simp only [h.2.2.2, if_true, hI.arr1, Bool.false_and, Bool.false_eq_true, if_false]
         rw [hopf, hinner] at ha1
         have hfl := flushToSep_aligned S true f hf opfRest fs opft1 opfd1 st.args ha1 (hI.args_ne hopf)
         cases hflr : flushToSep S true f opft1 opfd1 st.args with
